@@ -34,6 +34,21 @@ theorem C19_disciplined_groups : Netpoll.Gen.accessGroups.all okGroup = true := 
 theorem C19_disciplined : Netpoll.Gen.accesses.all ok = true :=
   all_ok_of_groups _ C19_disciplined_groups
 
+set_option maxRecDepth 200000 in
+/-- **C19_lexically_locked** (T-gen, lexical lock coverage): every plain access of the regenerated table made from a function
+    that the policy annotates as "inside a critical section of lock l" (`guarded`, producers of `handoff`) sits lexically
+    between a lock call on the Go object behind `l` and its unlock, at every occurrence in that function (table
+    `Netpoll.Gen.lexHeld`, regenerated from the current source).  A guarded write moved out of its `Lock()…Unlock()` window
+    inside the same function breaks this theorem. -/
+theorem C19_lexically_locked : Netpoll.Gen.accesses.all (lexOk Netpoll.Gen.lexHeld) = true := by decide +kernel
+
+/-- the lexical check does reject: the ring write of `triggering` without the list lock held; a shard's getters touched
+    outside the shard lock -/
+example : lexOk [] (nm!"mux.queueTrigger.list", nm!"mux.ShardQueue.triggering", .w) = false
+    ∧ lexOk [(nm!"mux.ShardQueue.getters", nm!"mux.ShardQueue.Add", .w, [nm!"mux.queueTrigger.listLock"])]
+        (nm!"mux.ShardQueue.getters", nm!"mux.ShardQueue.Add", .w) = false
+    ∧ lexOk Netpoll.Gen.lexHeld (nm!"mux.queueTrigger.list", nm!"mux.ShardQueue.triggering", .w) = true := by decide +kernel
+
 /-- the table is not trivial: it has more than 400 rows, among them plain writes, and the checker does reject
     undisciplined accesses (a plain write where only atomics are allowed; a write from a function outside the role;
     an unknown field). -/
